@@ -24,12 +24,20 @@ type c02Spec struct {
 	D      int      `json:"d,omitempty"`
 	Word   []string `json:"word,omitempty"`
 	Long   *lwSpec  `json:"long,omitempty"` // a long world (long.go) instead of words
+	NFrom  int      `json:"n_from,omitempty"` // sub-step sweep: one run per forced sub-step count in [NFrom, NTo]
+	NTo    int      `json:"n_to,omitempty"`
 }
 
 var c02Alpha = []string{"dry-warm", "rain", "dry-hot-windy", "heavy", "frost", "extreme"}
 
 func c02Specs(tier string, seed int) []c02Spec {
 	var out []c02Spec
+	// every forced sub-step count (mineralising soil, deposition): the source is applied once whatever the split
+	for _, so := range []string{"stony9", "sand20"} {
+		for from := 1; from <= 130; from += 10 {
+			out = append(out, c02Spec{Base: e1Base{Soil: so, GW: 99, InitW: 1.0, InitN: 30, ET: 3, Start: "2001-05-20"}, Depos: 30, NFrom: from, NTo: min(from+9, 130)})
+		}
+	}
 	type sg struct {
 		soil string
 		gws  []int
@@ -139,6 +147,7 @@ type c02Ledger struct {
 	irrN                                         float64
 	exemptDays                                   map[int]bool    // further measurement days; days after the annual output date
 	irrNs                                        map[int]float64 // further irrigation days: kg N/ha entering with the water
+	sumWdt                                       float64 // summed length of the day's executed sub-steps
 	irrPair                                      map[int][]float64 // days with several irrigation events: kg N/ha of each (the model applies one event per day or all of them; the N entering must be the N of the events it applied)
 }
 
@@ -157,6 +166,7 @@ func (l *c02Ledger) probe() *hermes.VerifProbe {
 			l.dsC = sumN(g.C1[:], g.N)
 			l.clampLayers = 0
 			l.interesting = false
+			l.sumWdt = 0
 		},
 		AfterEvatra: func(g *hermes.GlobalVarsMain, zeit int, w *hermes.WaterSharedVars) {
 			l.eC = sumN(g.C1[:], g.N)
@@ -205,6 +215,7 @@ func (l *c02Ledger) probe() *hermes.VerifProbe {
 		},
 		SubStep: func(g *hermes.GlobalVarsMain, zeit, subd int, steps, wdt float64, w *hermes.WaterSharedVars, n *hermes.NitroSharedVars) {
 			N := g.N
+			l.sumWdt += wdt
 			s1 := sumN(g.C1[:], N)
 			dn := sumN(g.DN[:], N) * wdt
 			res := (s1 - l.sC) + (g.AUFNASUM - l.a0) - dn + (g.OUTSUM - l.o0) + (g.DRAINLOSS - l.d0)
@@ -296,6 +307,10 @@ func (l *c02Ledger) probe() *hermes.VerifProbe {
 			if d := dn - src; math.Abs(d) > relTol(dn, src, g.UMS, l.mina0, l.minf0) {
 				l.c.Violate("source-term"+cls, fmt.Sprintf("%s day %d: source term of the transport %.10g kg N/ha, but dissolved fertiliser + net mineralisation - nitrification N2O = %.10g", l.label, zeit, dn, src), nil)
 			}
+			// (a2) the day's source term is handed out in portions of sub-step length: over the day exactly once
+			if applied := dn * l.sumWdt; math.Abs(applied-dn) > relTol(dn, applied) {
+				l.c.Violate("source-term applied over the sub-steps"+cls, fmt.Sprintf("%s day %d: the day's source term is %.10g kg N/ha, but %g sub-steps of %.17g d (%.17g d in total) applied %.10g", l.label, zeit, dn, steps, wdt, l.sumWdt, applied), nil)
+			}
 			// (b) denitrification removes from the profile exactly what it books
 			den := g.CUMDENIT - l.den0
 			res := (s1 - l.sC) + den
@@ -314,6 +329,30 @@ func c02Run(raw json.RawMessage, c *mc.Ctx) {
 	sp := mc.Decode[c02Spec](raw)
 	root := scratchRoot()
 	defer os.RemoveAll(root)
+	if sp.NTo > 0 {
+		substepSweep(sp.Base, sp.NFrom, sp.NTo, c, root, func(n int, rainMM float64, p *proj.Project, start int) {
+			l := &c02Ledger{c: c, measDay: start + 1, label: fmt.Sprintf("sub-step sweep n=%d rain=%gmm", n, rainMM), irrDay: -1}
+			nv := len(c.Viol)
+			res := proj.Run(root, p.Args(root, fmt.Sprintf("NDeposition=%g", sp.Depos)), l.probe())
+			c.Trace(1)
+			if res.Panic != "" || !res.Success {
+				c.Outcome("run-error")
+				c.Violate("run-error", fmt.Sprintf("run failed on valid input (sub-step sweep n=%d): %s %s", n, res.Err, res.Panic), nil)
+			} else {
+				c.Outcome("ok sweep")
+			}
+			if len(c.Viol) > nv && sp.NFrom != sp.NTo {
+				one := sp
+				one.NFrom, one.NTo = n, n
+				b, _ := json.Marshal(one)
+				for i := nv; i < len(c.Viol); i++ {
+					c.Viol[i].Spec = b
+				}
+			}
+		})
+		c.Sample(map[string]interface{}{"sweep": sp.Base, "n_from": sp.NFrom, "n_to": sp.NTo})
+		return
+	}
 	if sp.Long != nil {
 		w := lwBuild(*sp.Long)
 		w.P.Config["NDeposition"] = "25"
